@@ -18,7 +18,7 @@ RULE = ("class shapes = base class + registered subclass with members of every k
         "non-trivial = the name is a member of the shape or a variant of one")
 ASSUMPTIONS = ["classes with their own __getattr__/metaclass tricks are outside the quantifier", "'refused' = an exception reply of any type (no reply for oneway)",
                "a call-kind request naming an *exposed* property may run that property's getter before being refused"]
-REQUIRED_REACH = ["withdrawn_exposure_refused", "daemon_interface_ok", "dynamic_exposure_stages_ok", "surplus_argument_requests", "served_ok", "refused_ok", "oneway_checked", "metadata_checked", "nonstring_names", "decoration_refusals", "reregistrations_on_live_connection"]
+REQUIRED_REACH = ["foreign_instance_refusals", "withdrawn_exposure_refused", "daemon_interface_ok", "dynamic_exposure_stages_ok", "surplus_argument_requests", "served_ok", "refused_ok", "oneway_checked", "metadata_checked", "nonstring_names", "decoration_refusals", "reregistrations_on_live_connection"]
 SHARD_TIMEOUT = {"quick": 480, "thorough": 2800}
 
 RESERVED = ["__init__", "__init_subclass__", "__class__", "__module__", "__weakref__", "__call__", "__new__", "__del__", "__repr__", "__str__",
@@ -652,6 +652,60 @@ def dynamic_exposure_phase(fx, sername, rec, r):
                 fx.daemon.unregister(oid)
 
 
+def foreign_instance_phase(fx, sername, rec):
+    """a registered CLASS whose instance creator hands back an object of another class (a stand-in, a leftover mock): what is registered - and
+    advertised - is the class, so members of that other class are not reachable through its id, exposed there or not, and none of its code
+    runs; all three instance modes"""
+    P = fx.P
+    ser = P.serializers.serializers[sername]
+    LOGF = []
+
+    class Vault(object):
+        @P.server.expose
+        def open_vault(self):
+            LOGF.append("open_vault")
+            return "vault contents"
+
+        @P.server.expose
+        def ping(self):
+            LOGF.append("vault.ping")
+            return "vault"
+
+        @P.server.expose
+        @property
+        def combination(self):
+            LOGF.append("combination")
+            return 1234
+    for mode in ("percall", "session", "single"):
+        @P.server.behavior(instance_mode=mode, instance_creator=lambda cls: Vault())
+        class Front(object):
+            @P.server.expose
+            def ping(self):
+                LOGF.append("front.ping")
+                return "front"
+        oid = "front-%s-%s" % (mode, sername)
+        fx.daemon.register(Front, oid)
+        pay = {"foreign_instance": True, "serializer": sername, "servertype": fx.servertype}
+        c = wire.RawClient(fx.location)
+        try:
+            if c.handshake(oid, ser).type != wire.CONNECTOK:
+                rec.inconc("foreign-instance phase: handshake refused")
+                continue
+            for what, call in (("open_vault", lambda: c.invoke(oid, "open_vault", (), {}, ser)), ("ping", lambda: c.invoke(oid, "ping", (), {}, ser)),
+                               ("combination", lambda: c.invoke(oid, "__getattr__", ("combination",), {}, ser))):
+                del LOGF[:]
+                rep = call()
+                rec.case(("foreign-instance", mode, what, sername, fx.servertype), nontrivial=True)
+                if not (rep.flags & wire.F_EXC) or LOGF:
+                    rec.violation("foreign-instance-served", "%s mode: the creator of the registered class returned an object of another class; the request for %r was %s and ran %r" % (
+                        mode, what, "answered" if not (rep.flags & wire.F_EXC) else "refused", LOGF), pay)
+                    return
+                rec.count("foreign_instance_refusals")
+        finally:
+            c.close()
+            fx.daemon.unregister(oid)
+
+
 def daemon_interface_phase(P, servertype, sername, rec):
     """the daemon's own object (id Pyro.Daemon) with an application-supplied interface class (Daemon(interface=...), a documented option):
     the same gate applies to it - only the members that are exposed are served and advertised"""
@@ -798,6 +852,7 @@ def run_shard(shard, rec):
                 run_shape(fx, shape, sername, rec, r, light=False)
         if not rec.should_stop(40):
             dynamic_exposure_phase(fx, fixture.SERIALIZERS[shard["i"] % 4], rec, r)
+            foreign_instance_phase(fx, fixture.SERIALIZERS[shard["i"] % 4], rec)
         for kind, text in fixture.take_faults():
             if kind == "thread-exception":
                 if "oneway-call" in text and "object is not callable" in text and "Helper" in text:
@@ -815,6 +870,13 @@ def replay(payload, rec):
     P = fixture.pyro()
     if payload.get("daemon_interface"):
         daemon_interface_phase(P, payload["servertype"], payload["serializer"], rec)
+        return
+    if payload.get("foreign_instance"):
+        fx = fixture.Fixture(servertype=payload.get("servertype", "thread"), COMMTIMEOUT=0.0)
+        try:
+            foreign_instance_phase(fx, payload["serializer"], rec)
+        finally:
+            fx.stop()
         return
     if payload.get("dynamic"):
         fx = fixture.Fixture(servertype=payload.get("servertype", "thread"), COMMTIMEOUT=0.0)
